@@ -670,13 +670,12 @@ func ruleViewRaw(c *Ctx) {
 		siteAt[s.node] = s
 	}
 	for _, vi := range views {
-		if vi.strct == nil {
-			continue
-		}
-		sst := vi.strct.Underlying().(*types.Struct)
 		fieldIdx := map[string]int{}
-		for i := 0; i < sst.NumFields(); i++ {
-			fieldIdx[sst.Field(i).Name()] = i
+		if vi.strct != nil {
+			sst := vi.strct.Underlying().(*types.Struct)
+			for i := 0; i < sst.NumFields(); i++ {
+				fieldIdx[sst.Field(i).Name()] = i
+			}
 		}
 		for i := 0; i < vi.nt.NumMethods(); i++ {
 			mi := se.methods[vi.nt.Method(i).Origin()]
@@ -732,12 +731,51 @@ func ruleViewRaw(c *Ctx) {
 				}
 				return 0, false
 			}
+			// assignment-style flatteners: `dst.F, err = AsY(values[i], err)` / `dst.F = T(x)` with x read from index i.
+			// dst is any struct whose field is named like a descriptor field: the name must be that of field i
+			// (contradiction form: only a field name belonging to ANOTHER index is a violation)
+			ast.Inspect(mi.fd.Body, func(n ast.Node) bool {
+				as, ok := n.(*ast.AssignStmt)
+				if !ok || len(as.Rhs) != 1 || len(as.Lhs) < 1 {
+					return true
+				}
+				sel, ok := ast.Unparen(as.Lhs[0]).(*ast.SelectorExpr)
+				if !ok {
+					return true
+				}
+				if id, ok := ast.Unparen(sel.X).(*ast.Ident); !ok || info.Uses[id] == recvObj {
+					return true
+				}
+				if s, ok := info.Selections[sel]; !ok || s.Kind() != types.FieldVal {
+					return true
+				}
+				got, ok := origin(as.Rhs[0], 0)
+				if !ok {
+					return true
+				}
+				want := -1
+				for j, fn := range vi.fields {
+					if fn == sel.Sel.Name {
+						want = j
+					}
+				}
+				if want < 0 {
+					return true
+				}
+				key := vi.name + "." + mi.fd.Name.Name + "{" + sel.Sel.Name + "}"
+				if int(got) != want {
+					c.bad(key, as.Pos(), "%s is filled from view index %d (%s); the field named %s is index %d", types.ExprString(sel), got, vi.fields[got], sel.Sel.Name, want)
+				} else {
+					c.ok(key, as.Pos(), "from index %d", got)
+				}
+				return true
+			})
 			ast.Inspect(mi.fd.Body, func(n ast.Node) bool {
 				cl, ok := n.(*ast.CompositeLit)
 				if !ok {
 					return true
 				}
-				if nt := namedOf(info.TypeOf(cl)); nt != vi.strct {
+				if nt := namedOf(info.TypeOf(cl)); nt != vi.strct || vi.strct == nil {
 					return true
 				}
 				for _, el := range cl.Elts {
